@@ -74,7 +74,9 @@ def run(rep):
     chosen = modelcheck.sample_behaviours(behs, bps, 80 if rep.tier == 'quick' else 2500, rep.seed)
     chosen = [b for b in chosen if b['decl'] != list(range(1, len(bps[b['name']]['sectors']) + 1))]
     rep.extra['orders_emitted_by_tlc'] = len(behs)
-    jobs = [(bps[b['name']], b['decl'], rep.seed) for b in chosen]
+    for b in chosen:
+        b['seed'] = modelcheck.case_seed(rep.seed, b['decl'])
+    jobs = [(bps[b['name']], b['decl'], b['seed']) for b in chosen]
     with concurrent.futures.ProcessPoolExecutor(max_workers=min(16, len(jobs) or 1)) as ex:
         results = list(ex.map(_job, jobs, chunksize=max(1, len(jobs) // 64)))
     for r in results:
@@ -102,7 +104,7 @@ def judge(rep, chosen, results):
     rep.extra['trace_validation_states'] = st
     for i, (beh, (events, info)) in enumerate(zip(chosen, results)):
         clauses = [c for c in verdicts[i].split(':', 1)[1].split(',') if c]
-        case = {'name': beh['name'], 'decl': beh['decl'], 'seed': rep.seed}
+        case = {'name': beh['name'], 'decl': beh['decl'], 'seed': beh.get('seed', rep.seed)}
         for c in clauses:
             if c.startswith('C08_'):
                 rep.violate(c, 'C08_OrderIndependent:%s' % beh['name'], case, detail=info['compare']['detail'])
@@ -119,7 +121,7 @@ def replay(path):
         return stepscheck.replay_case(data)
     rep = core.Report(PROP, 'quick', case.get('seed', 0))
     bps, behs = modelcheck.generate(rep, 'MC_ModelBuild_thorough.cfg' if data.get('tier') == 'thorough' else 'MC_ModelBuild_quick.cfg')
-    beh = {'name': case['name'], 'decl': case['decl']}
+    beh = {'name': case['name'], 'decl': case['decl'], 'seed': case.get('seed', 0)}
     res = _job((bps[case['name']], case['decl'], case.get('seed', 0)))
     judge(rep, [beh], [res])
     print(json.dumps({'case': case, 'compare': res[1]['compare']}, default=str))
